@@ -260,10 +260,11 @@ func constOrEmpty(v ssa.Value) string {
 }
 
 func checkC10(c *Ctx, r *Report) {
-	r.Rules = []string{"F12 signed bytes are the stored bytes (deb debsign, deb dpkg-sig, apk, rpm)", "F12 signature member names", "D7 signature type validated before signing", "signer installed iff configured (rpm)", "E4 signing failures are typed and unwrap", "K-key-read keys are read on every signing call", "E4-wrap errors formatted on signing paths stay in the chain (%w)", "K-settings-ro no packager stores into a signature section", "key-S-get-self Config.Get copies each key id from itself (imported from C13)"}
+	r.Rules = []string{"F12 signed bytes are the stored bytes (deb debsign, deb dpkg-sig, apk, rpm)", "F12 signature member names", "D7 signature type validated before signing", "signer installed iff configured (rpm)", "E4 signing failures are typed and unwrap", "K-key-read keys are read on every signing call", "E4-wrap errors formatted on signing paths stay in the chain (%w)", "K-settings-ro no packager stores into a signature section", "key-S-get-self Config.Get copies each key id from itself (imported from C13)", "pass-F15-passphrase passphrase precedence per format (imported from C16)"}
 	r.Explanation = "Value-identity and typed-error rules over go/ssa. (F12) deb: the three byte slices handed to the signing function are the very SSA values written as the bodies of the ar members debian-binary, control.tar.gz and the data member, and they reach io.MultiReader in that order; the signature member is named \"_gpg\"+<type returned by the signer>; the dpkg-sig manifest measures each of the same three values (md5, sha1 and size of one parameter) and names each line with the name the member is stored under; apk: the digest handed to the signer is the value returned by the call that wrote the control segment, and the segments are concatenated signature, control, data with those same buffers; rpm: a signer is installed exactly behind the key-file / callback tests and the callback adapter hands the data through unchanged. (D7) with an invalid debsign type no signer call is live. (E4) every function through which a signing error leaves a packager — including the closures handed to rpmpack — returns either nil or a *nfpm.ErrSigningFailure on every path, and that type has an Unwrap() error method returning the wrapped error. Cryptographic validity is not analysed."
 	r.Explanation += " (K-key-read) every signing entry point of internal/sign must-reaches the read of the key file. (E4-wrap) on the signing paths every fmt.Errorf has at least as many %w verbs as error arguments."
 	r.Explanation += " (K-settings-ro) no store in a packager package is rooted at a field of a signature section of the Info. (key-S-get-self) imported from C13."
+	r.Explanation += " (pass-F15-passphrase) imported from C16, including the rule that a table-driven selection carries no state from one format's row to the next."
 	r.Assumptions = []string{
 		"go-crypto/openpgp, crypto/rsa and rpmpack's signature header handling are correct",
 		"rpmpack passes the signer callback exactly the header (and header+payload) bytes it stores",
@@ -277,6 +278,9 @@ func checkC10(c *Ctx, r *Report) {
 	checkSignatureSettingsReadOnly(c, r)
 	// the key id a format signs with is that format's own: Config.Get copies
 	// each signature's key id from itself (rule of C13)
+	// which passphrase unlocks a format's key: the format's own variable, else
+	// the general one - decided per format (rule of C16)
+	r.Floor("pass-F15-passphrase", importRules(c, r, checkC16, "pass-", []string{"F15-passphrase"}, nil), 3)
 	r.Floor("key-S-get-self", importRules(c, r, checkC13, "key-", []string{"S-get-self"}, nil), 1)
 }
 
